@@ -18,7 +18,6 @@ import (
 	"runtime/pprof"
 	"sort"
 	"strings"
-	"sync"
 	"time"
 
 	"github.com/sarchlab/mgpusim/v4/amd/driver"
@@ -154,11 +153,6 @@ func sameLevels(a, b [][]uint64) bool {
 	return true
 }
 
-type node struct {
-	hist []op
-	ops  []op
-}
-
 type trans struct {
 	fp    [16]byte
 	end   int
@@ -174,6 +168,38 @@ type totals struct {
 
 var observations = map[string]string{}
 
+// enabledAfter replays hist (reference model observing) and returns the valid
+// calls of the state it reaches. It is what the last step of runHistory
+// computes for the same history; states keep only (parent, call), and their
+// enabled calls are recomputed when they are expanded.
+func enabledAfter(c *config, hist []op) (ops []op, infra string) {
+	defer func() {
+		if e := recover(); e != nil {
+			infra = fmt.Sprintf("harness panic on %s: %v", histString(hist), e)
+		}
+	}()
+	s := newSUT(c)
+	r := newRef(c)
+	for _, o := range hist {
+		res := s.apply(r, o)
+		if res.panicked {
+			return nil, fmt.Sprintf("prefix call %s of %s panicked on replay: %s", o, histString(hist), res.panicMsg)
+		}
+		r.update(o, res, s.finder(), s.devOfFrame)
+	}
+	return r.enabled(), ""
+}
+
+// stateRec is all that is kept of a state: the state it was first reached
+// from and the call that reached it (12 bytes; the history is the path to the
+// root). The seen-set keeps 16-byte fingerprints only.
+type stateRec struct {
+	parent int32
+	o      op
+}
+
+const expandChunk = 1024 // states expanded in parallel between two sequential merges: bounds the buffered results
+
 func search(r *harness.Run, c *config) (tot totals, complete bool) {
 	driver.VerifSetBuddyAllocator(c.Buddy)
 	start := time.Now()
@@ -187,80 +213,102 @@ func search(r *harness.Run, c *config) (tot totals, complete bool) {
 	}
 	seen := map[[16]byte]struct{}{root.fp: {}}
 	tot.states = 1
-	frontier := []node{{ops: root.ops}}
+	var arena []stateRec // every expandable state below the root
+	histOf := func(idx int32) []op {
+		n := 0
+		for i := idx; i >= 0; i = arena[i].parent {
+			n++
+		}
+		h := make([]op, n)
+		for i := idx; i >= 0; i = arena[i].parent {
+			n--
+			h[n] = arena[i].o
+		}
+		return h
+	}
+	frontier := []int32{-1} // -1 = the root
 	complete = true
-	var opsMu sync.Mutex
-	for depth := 1; depth <= c.Depth && len(frontier) > 0; depth++ {
-		results := make([][]trans, len(frontier))
-		opsByFP := map[[16]byte][]op{}
-		done := r.ForEach(len(frontier), func(i int) {
-			nd := &frontier[i]
-			res := make([]trans, len(nd.ops))
-			for j, o := range nd.ops {
-				h := append(append(make([]op, 0, len(nd.hist)+1), nd.hist...), o)
-				so := runHistory(c, h, false, nil)
-				res[j] = trans{fp: so.fp, end: so.end, viols: so.viols, infra: so.infra, desc: so.describe}
-				if so.end == endNone && depth < c.Depth {
-					opsMu.Lock()
-					if _, ok := opsByFP[so.fp]; !ok {
-						opsByFP[so.fp] = so.ops
-					}
-					opsMu.Unlock()
-				}
-			}
-			results[i] = res
-		})
-		var next []node
+	type expansion struct {
+		ops []op
+		res []trans
+	}
+	for depth := 1; depth <= c.Depth && len(frontier) > 0 && complete; depth++ {
+		var next []int32
 		var newStates int64
-		for i := range frontier {
-			if results[i] == nil {
-				continue // cut by the time budget
+		for lo := 0; lo < len(frontier) && complete; lo += expandChunk {
+			hi := lo + expandChunk
+			if hi > len(frontier) {
+				hi = len(frontier)
 			}
-			for j, t := range results[i] {
-				o := frontier[i].ops[j]
-				tot.transitions++
-				h := append(append(make([]op, 0, len(frontier[i].hist)+1), frontier[i].hist...), o)
-				if t.infra != "" {
-					r.Infra("%s: %s", c.Name, t.infra)
-					continue
+			chunk := frontier[lo:hi]
+			exp := make([]*expansion, len(chunk))
+			done := r.ForEach(len(chunk), func(i int) {
+				h := histOf(chunk[i])
+				e := &expansion{}
+				if chunk[i] < 0 {
+					e.ops = root.ops
+				} else {
+					var infra string
+					if e.ops, infra = enabledAfter(c, h); infra != "" {
+						e.res = []trans{{infra: infra}}
+						e.ops = []op{{}}
+						exp[i] = e
+						return
+					}
 				}
-				for _, v := range t.viols {
-					if c.Informational {
-						if _, ok := observations[v.sig]; !ok {
-							observations[v.sig] = v.msg + " -- history: " + histString(h)
-							fmt.Printf("OBSERVATION outside the valid alphabet (not a violation): %s\n  %s\n  history: %s\n", v.sig, v.msg, histString(h))
-						}
+				e.res = make([]trans, len(e.ops))
+				for j, o := range e.ops {
+					so := runHistory(c, append(h[:len(h):len(h)], o), false, nil)
+					e.res[j] = trans{fp: so.fp, end: so.end, viols: so.viols, infra: so.infra, desc: so.describe}
+				}
+				exp[i] = e
+			})
+			for i := range chunk {
+				if exp[i] == nil {
+					continue // cut by the time budget
+				}
+				for j, t := range exp[i].res {
+					o := exp[i].ops[j]
+					if t.infra != "" {
+						r.Infra("%s: %s", c.Name, t.infra)
 						continue
 					}
-					r.Report(v.sig, v.msg+"\nhistory: "+histString(h), replayCase{Config: c.Name, History: h, Text: histString(h)})
+					tot.transitions++
+					if len(t.viols) > 0 {
+						h := append(histOf(chunk[i]), o)
+						for _, v := range t.viols {
+							r.Report(v.sig, v.msg+"\nhistory: "+histString(h), replayCase{Config: c.Name, History: h, Text: histString(h)})
+						}
+					}
+					if t.end == endBuddyFragmentation {
+						tot.fragment++
+						continue
+					}
+					if _, ok := seen[t.fp]; ok {
+						continue
+					}
+					seen[t.fp] = struct{}{}
+					tot.states++
+					newStates++
+					if t.end != endNone {
+						tot.terminal++
+						continue
+					}
+					if depth < c.Depth {
+						arena = append(arena, stateRec{parent: chunk[i], o: o})
+						next = append(next, int32(len(arena)-1))
+					}
+					if tot.states%97 == 5 {
+						h := append(histOf(chunk[i]), o)
+						r.Sample(map[string]any{"config": c.Name, "history": histString(h), "fingerprint": fmt.Sprintf("%x", t.fp)})
+					}
 				}
-				if t.end == endBuddyFragmentation {
-					tot.fragment++
-					continue
-				}
-				if _, ok := seen[t.fp]; ok {
-					continue
-				}
-				seen[t.fp] = struct{}{}
-				tot.states++
-				newStates++
-				if t.end != endNone {
-					tot.terminal++
-					continue
-				}
-				if depth < c.Depth {
-					next = append(next, node{hist: h, ops: opsByFP[t.fp]})
-				}
-				if tot.states%97 == 5 {
-					r.Sample(map[string]any{"config": c.Name, "history": histString(h), "fingerprint": fmt.Sprintf("%x", t.fp)})
-				}
+			}
+			if !done {
+				complete = false
 			}
 		}
 		tot.perDepth = append(tot.perDepth, newStates)
-		if !done {
-			complete = false
-			break
-		}
 		frontier = next
 	}
 	fmt.Printf("config %-34s depth=%d states=%d transitions=%d violating-terminal=%d buddy-refusals=%d new-per-depth=%v complete=%v %.1fs\n",
@@ -268,13 +316,21 @@ func search(r *harness.Run, c *config) (tot totals, complete bool) {
 	return
 }
 
+var gcBallast []byte
+
 func main() {
 	r := harness.Start("C10", "model_checking")
 	// Every transition builds a fresh driver whose CPU device owns 4 GiB worth
 	// of page frames (up to 40 MB of short-lived slices); the live heap is
 	// tiny, so a proportional GC trigger would collect every few transitions.
-	debug.SetGCPercent(-1)
-	debug.SetMemoryLimit(20 << 30)
+	// GC pacing by an untouched (hence non-resident) 1 GiB ballast: the collector
+	// runs whenever ~1 GiB of garbage has accumulated, the freed spans are reused,
+	// and the resident set stays around 2 GB. The soft limit is only a safety net
+	// (pacing by the limit alone makes the runtime return and re-fault pages all
+	// the time, which serialises the workers).
+	gcBallast = make([]byte, 1<<30)
+	debug.SetGCPercent(100)
+	debug.SetMemoryLimit(3500 << 20)
 	cfgs := configs(r.Thorough())
 	if only := os.Getenv("C10_ONLY"); only != "" { // development aid: run the configurations whose name contains the string
 		var sel []config
@@ -309,6 +365,7 @@ func main() {
 			break
 		}
 		t, complete := search(r, c)
+		debug.FreeOSMemory() // the search's seen-set and frontier are garbage now; give the pages back before the next one
 		states += t.states
 		transitions += t.transitions
 		fragment += t.fragment
